@@ -27,6 +27,21 @@ class Exc(Value):
         return "Exc(%s@%s)" % (self.etype, self.lineno)
 
 
+class VTimeout(Value):
+    """the event returned by env.timeout(delay)"""
+
+    def __init__(self, delay):
+        self.delay = delay
+
+
+class VGen(Value):
+    """a generator object created by calling a generator method (not started)"""
+
+    def __init__(self, name, args):
+        self.name = name
+        self.args = args
+
+
 class FieldRef(Value):
     """reference to a list-valued field of self (lists are mutable objects; aliases must see mutations)."""
 
@@ -67,6 +82,7 @@ class Obligation:
         self.props = tuple(props)
         self.trace = list(state.trace)
         self.state = state
+        self.ctx = None
 
 
 EXC_PARENTS = {
@@ -111,7 +127,9 @@ class Ctx:
 
     def oblige(self, name, state, goals, kind, lineno=0, props=()):
         goals = [g for g in goals]
-        self.obligs.append(Obligation(name, state, goals, kind, lineno, props))
+        ob = Obligation(name, state, goals, kind, lineno, props)
+        ob.ctx = self
+        self.obligs.append(ob)
 
 
 # ---------------------------------------------------------------------------
